@@ -674,7 +674,7 @@ class Framer(tasking.Tasker):
         upper = tops
         lower = []
         count = 0
-        while upper:
+        while upper and count < len(names):  # never deeper than there are frames, unders may loop
             lframes = []
             for u in upper: #
                 path = u.name
